@@ -7,6 +7,16 @@ ALL = ["C%02d" % i for i in range(1, 20)]
 
 # id -> (category, technique, level text, level note, design ref)
 CHECKS = {
+    "C07": ("exploration",
+            "bounded exhaustive enumeration of token sequences and grammar.y derivation trees against a grammar-derived oracle",
+            "Every token sequence up to length 5 (quick) / 6 (thorough) over all 28 token kinds plus the line-break terminator is parsed by the real parser and its acceptance compared with membership in the set of sentences enumerated from /repo/grammar.y (read at run time); enumeration also certifies that no sentence has two derivations. Every derivation tree up to 6-7 tokens (full alphabet), 8-9 tokens (class alphabet) and 11-13 tokens (seven sub-grammar slices: application chains, sums, products, mixed arithmetic, let groups, binder forms, if-let) is parsed and the result compared node for node with the tree the derivation specifies (left-folded chains, parentheses honoured). Exhaustive within those bounds.",
+            "Trusted: the production-to-node mapping and re-association rule in engine/src/model/surface.rs (transcribed from grammar.y's header and the property), the derivation enumerator (cross-examined on every 97th sequence by an independent span recogniser over the same rules). Identifier spelling is abstracted (binders fresh, uses bound through parse's context parameter).",
+            "DESIGN.md 6/C07"),
+    "C10": ("model_checking",
+            "explicit-state exploration of layout edits (deviation-bounded BFS) plus bounded exhaustive string enumeration against a reference lexer",
+            "States are layouts of grammar.y sentences (a vector of gap fillers); transitions replace one gap's filler from a 17-entry menu of spaces, tabs, line breaks, comments (empty, ASCII, ending in multi-byte characters, at end of file). All states with at most 1 deviation (sentences up to 5/6 tokens) and 2 deviations (up to 4/5 tokens) are visited; in each the real token stream must equal the stream predicted by the line-break rule of C10, and every `;` between an ender and a starter is swapped for separating line breaks / comments with the parse trees compared. In addition every string up to 6/7 fragments over a 12-fragment layout alphabet is compared with the reference lexer.",
+            "Trusted: the ENDERS/STARTERS sets written out from the property text, the reference lexer. The prediction is replayed against the real tokenizer in every state (traces_validated_against_impl).",
+            "DESIGN.md 6/C10"),
     "C09": ("exploration",
             "bounded exhaustive enumeration of input strings against a reference lexer",
             "Every string of at most k fragments over a 44-fragment alphabet chosen from the case analysis of the tokenizer (plus de Bruijn texts with every fragment triple) is tokenized by the real code and compared token-for-token, range-for-range and diagnostic-for-diagnostic with a declarative reference lexer, and checked against the partition invariants. Exhaustive within the stated bound; nothing is claimed beyond it.",
